@@ -43,7 +43,7 @@ func (z *zvSrv) phaseBlocking(run *core.Run) {
 		return false
 	}
 	var out struct{}
-	for _, s := range []string{"zvweb", "zvdb", "zvsecret-api"} {
+	for _, s := range []string{"zvweb", "zvweb2", "zvdb", "zvsecret-api"} {
 		if fail("register "+s, zvSrvCall(srv, "Catalog.Register", &structs.RegisterRequest{Datacenter: "dc1", Node: "zvn1", Address: "10.9.0.1",
 			Service: &structs.NodeService{ID: s, Service: s, Port: 80}, WriteRequest: w}, &out)) {
 			return
@@ -52,7 +52,7 @@ func (z *zvSrv) phaseBlocking(run *core.Run) {
 	for _, dst := range []string{"zvdb", "zvsecret-api"} {
 		var ok bool
 		if fail("intention zvweb->"+dst, zvSrvCall(srv, "ConfigEntry.Apply", &structs.ConfigEntryRequest{Datacenter: "dc1", Op: structs.ConfigEntryUpsert, WriteRequest: w,
-			Entry: &structs.ServiceIntentionsConfigEntry{Kind: structs.ServiceIntentions, Name: dst, Sources: []*structs.SourceIntention{{Name: "zvweb", Action: structs.IntentionActionAllow}}}}, &ok)) {
+			Entry: &structs.ServiceIntentionsConfigEntry{Kind: structs.ServiceIntentions, Name: dst, Sources: zvBlkSources(dst)}}, &ok)) {
 			return
 		}
 		if fail("service-defaults "+dst, zvSrvCall(srv, "ConfigEntry.Apply", &structs.ConfigEntryRequest{Datacenter: "dc1", Op: structs.ConfigEntryUpsert, WriteRequest: w,
@@ -60,7 +60,7 @@ func (z *zvSrv) phaseBlocking(run *core.Run) {
 			return
 		}
 	}
-	secret := z.mkTokenQuiet("zv-blocking", `service "zvweb" { policy = "read" } service "zvdb" { policy = "read" } node_prefix "" { policy = "read" }`)
+	secret := z.mkTokenQuiet("zv-blocking", `service "zvweb" { policy = "read" } service "zvweb2" { policy = "read" } service "zvdb" { policy = "read" } node_prefix "" { policy = "read" }`)
 	if secret == "" {
 		zvSanityFail(run, "server tier (blocking reads): could not create the restricted token")
 		return
@@ -77,6 +77,12 @@ func (z *zvSrv) phaseBlocking(run *core.Run) {
 	eps := []ep{
 		{"Internal.IntentionUpstreams:zvweb", "Internal.IntentionUpstreams", func(t string, m uint64, wt time.Duration) any {
 			return &structs.ServiceSpecificRequest{Datacenter: "dc1", ServiceName: "zvweb", QueryOptions: qo(t, m, wt)}
+		}, func() any { return &structs.IndexedServiceList{} }, true},
+		// a single upstream, and that one unreadable: the topology result of several upstreams comes out of a Go
+		// map in varying order, which defeats the endpoint's hash comparison (and would hide a reply that is
+		// left unfiltered on the unchanged-hash path)
+		{"Internal.IntentionUpstreams:zvweb2", "Internal.IntentionUpstreams", func(t string, m uint64, wt time.Duration) any {
+			return &structs.ServiceSpecificRequest{Datacenter: "dc1", ServiceName: "zvweb2", QueryOptions: qo(t, m, wt)}
 		}, func() any { return &structs.IndexedServiceList{} }, true},
 		{"Catalog.ServiceNodes:zvsecret-api", "Catalog.ServiceNodes", func(t string, m uint64, wt time.Duration) any {
 			return &structs.ServiceSpecificRequest{Datacenter: "dc1", ServiceName: "zvsecret-api", QueryOptions: qo(t, m, wt)}
@@ -136,10 +142,11 @@ func (z *zvSrv) phaseBlocking(run *core.Run) {
 				for k := 0; k < n; k++ {
 					time.Sleep(120 * time.Millisecond) // let the call park (not a verdict)
 					noise++
-					// a write that touches the watched tables without changing any of the results: an unrelated
-					// service instance on another node
+					// a write that touches the watched tables without changing any of the results for the restricted
+					// token: an unrelated, NEW service name on another node (a further instance of a known name
+					// does not move the indexes the topology queries report)
 					zvSrvCall(srv, "Catalog.Register", &structs.RegisterRequest{Datacenter: "dc1", Node: "zvnoise", Address: "10.9.0.9",
-						Service: &structs.NodeService{ID: fmt.Sprintf("zvnoise-%d", noise), Service: "zvnoise", Port: 1}, WriteRequest: w}, &out)
+						Service: &structs.NodeService{ID: fmt.Sprintf("zvnoise-%d", noise), Service: fmt.Sprintf("zvnoise-%d", noise), Port: 1}, WriteRequest: w}, &out)
 					writes++
 				}
 			}
@@ -149,6 +156,10 @@ func (z *zvSrv) phaseBlocking(run *core.Run) {
 			case <-time.After(60 * time.Second):
 				run.Inconclusive(fmt.Sprintf("%s: blocking call with MaxQueryTime 700ms did not return within 60 s", e.name))
 				continue
+			}
+			if mode == "noise-then-deadline" {
+				_, _, fp0 := zvBlkFP(r0)
+				run.Extra("blocking:"+e.name, map[string]any{"restricted": trunc9(fp0, 300), "management": trunc9(fpMgmt, 300), "blocking_reply": trunc9(got.fp, 300), "reply_index": got.idx, "min_index": idx0})
 			}
 			run.Eval()
 			run.Count("server_blocking_cases")
@@ -192,6 +203,14 @@ func (z *zvSrv) mkTokenQuiet(name, rules string) string {
 		return ""
 	}
 	return tok.SecretID
+}
+
+func zvBlkSources(dst string) []*structs.SourceIntention {
+	out := []*structs.SourceIntention{{Name: "zvweb", Action: structs.IntentionActionAllow}}
+	if dst == "zvsecret-api" {
+		out = append(out, &structs.SourceIntention{Name: "zvweb2", Action: structs.IntentionActionAllow})
+	}
+	return out
 }
 
 func trunc9(s string, n int) string {
